@@ -4,7 +4,7 @@ One row per public request entry point, RECORDED from the code (nothing is
 copied from the harness's own table):
   (method, request class handed to _parse_request, msgtype of that class, service,
    msgtype its signature_check hands to correctly_signed_message,
-   xml/must/only_valid_cert passed through unchanged,
+   the text and `must` passed through unchanged,
    root tags that correctly_signed_message(<msgtype>) accepts out of CANDIDATES,
    SOAP reader parse_soap_enveloped_saml_<msgtype> exists,
    root tags that reader accepts out of CANDIDATES)
@@ -91,7 +91,8 @@ def record_rows():
         if len(calls) != 1 or got != "MSG":
             raise TypeError("%s.signature_check does not end in correctly_signed_message" % rcls.__name__)
         sig_mt = calls[0][1]
-        passed = calls[0][0] == "XML" and calls[0][2] == "MUST" and calls[0][3] == "OVC"
+        # only_valid_cert is not required to arrive: with the repaired last step of _check_signature it has no effect there
+        passed = calls[0][0] == "XML" and calls[0][2] == "MUST"
         # roots accepted by the real correctly_signed_message for that msgtype (unsigned documents, must=False)
         roots = []
         for label, ns, local in CANDIDATES:
